@@ -3,11 +3,18 @@
 package referenceclient
 
 import (
+	"context"
+	"encoding/json"
+	"errors"
 	"net/http"
 	"strconv"
 
+	"connectrpc.com/conformance/internal"
 	"connectrpc.com/conformance/internal/grpcutil"
+	"connectrpc.com/conformance/internal/tracer"
 )
+
+var errVerifTrace = errors.New("verif: trace error")
 
 // C13: the reference client's wire checks accept well-formed gRPC / gRPC-Web status metadata, flag the named
 // malformations, and never crash on arbitrary bytes (non-JSON examiners).
@@ -125,4 +132,142 @@ func H13d_q() {
 	p7 := &vCountPrinter{}
 	examineGRPCEndStream(line+"\r\n", p7)
 	vAssert(p7.n > 0, "an extra blank line is flagged")
+}
+
+// ---- H13e: which examiner sees which part of the response (examineWireDetails' dispatch) ----
+//
+// The four examiners are replaced by recorders (their own behaviour is the subject of H13a-d); the dispatch on
+// content type, status, end-stream event, trailers-only shape and the "HTTP trailers outside gRPC" check run
+// for real. The trace is installed with the real withWireCapture / setWireTrace.
+
+type vDispatchRec struct {
+	connErr, connEnd, grpcEnd, status int
+	connErrBody, connEndBody, grpcEndBody string
+	statusOn                              string // which header set the status check ran on
+}
+
+var vRec vDispatchRec
+
+//verif:replace connectrpc.com/conformance/internal/app/referenceclient.examineConnectError vModelExamineConnectError
+func vModelExamineConnectError(errJSON json.RawMessage, printer internal.Printer) {
+	vRec.connErr++
+	vRec.connErrBody = string(errJSON)
+}
+
+//verif:replace connectrpc.com/conformance/internal/app/referenceclient.examineConnectEndStream vModelExamineConnectEndStream
+func vModelExamineConnectEndStream(endStreamJSON json.RawMessage, printer internal.Printer) {
+	vRec.connEnd++
+	vRec.connEndBody = string(endStreamJSON)
+}
+
+//verif:replace connectrpc.com/conformance/internal/app/referenceclient.examineGRPCEndStream vModelExamineGRPCEndStream
+func vModelExamineGRPCEndStream(endStream string, printer internal.Printer) http.Header {
+	vRec.grpcEnd++
+	vRec.grpcEndBody = endStream
+	return http.Header{"From-End-Stream": []string{"1"}}
+}
+
+//verif:replace connectrpc.com/conformance/internal/app/referenceclient.checkGRPCStatus vModelCheckGRPCStatus
+func vModelCheckGRPCStatus(headers http.Header, printer internal.Printer) {
+	vRec.status++
+	switch {
+	case len(headers["From-End-Stream"]) > 0:
+		vRec.statusOn = "end-stream"
+	case len(headers["Content-Type"]) > 0:
+		vRec.statusOn = "headers"
+	case len(headers["X-T"]) > 0:
+		vRec.statusOn = "trailers"
+	default:
+		vRec.statusOn = "?"
+	}
+}
+
+var vContentTypes = [9]string{
+	"application/json", "application/proto", "application/connect+proto", "application/connect+json",
+	"application/grpc-web", "application/grpc-web+proto", "application/grpc", "application/grpc+proto", "text/plain",
+}
+
+func H13e_q() {
+	ct := vInt("ct", 0, 8)
+	status := 200
+	if vBool("status400") {
+		status = 400
+	}
+	hasTrailer := vBool("trailer")
+	hasData := vBool("data")
+	hasEnd := vBool("end")
+	hasErr := vBool("err")
+
+	// contents are well-formed for the examiner that ought to see them, so that natively (real examiners) any
+	// feedback other than the trailer rule's reveals a wrong dispatch
+	const errBody = `{"code":"internal"}`
+	endContent := "{}"
+	if ct == 4 || ct == 5 {
+		endContent = "grpc-status: 0\r\n"
+	}
+	resp := &http.Response{StatusCode: status, Header: http.Header{"Content-Type": []string{vContentTypes[ct]}, "Grpc-Status": []string{"0"}}}
+	if hasTrailer {
+		resp.Trailer = http.Header{"X-T": []string{"v"}, "Grpc-Status": []string{"0"}}
+	}
+	trace := tracer.Trace{Response: resp}
+	if hasErr {
+		trace.Err = errVerifTrace
+	}
+	if hasData {
+		trace.Events = append(trace.Events, &tracer.ResponseBodyData{Len: 1})
+	}
+	if hasEnd {
+		trace.Events = append(trace.Events, &tracer.ResponseBodyEndStream{Content: endContent})
+	}
+	ctx := withWireCapture(context.Background())
+	wrapper, _ := ctx.Value(wireCtxKey{}).(*wireWrapper)
+	wrapper.buf.WriteString(errBody)
+	setWireTrace(ctx, trace)
+
+	p := &vCountPrinter{}
+	vRec = vDispatchRec{}
+	code, ok := examineWireDetails(ctx, p)
+	vAssert(ok && code == status, "a completed trace with a response reports the response's status code")
+	if vNative() {
+		// natively the real examiners ran and print through p; on these well-formed contents they are silent
+		// when handed the right part of the response, so the count is that of the trailer rule alone
+		want := 0
+		if hasTrailer && ct != 6 && ct != 7 {
+			want = 1
+		}
+		vAssert(p.n == want, "natively: no feedback except for HTTP trailers outside gRPC")
+		return
+	}
+
+	isJSONErr := ct == 0 && status != 200
+	isConnectStream := ct == 2 || ct == 3
+	isGRPCWeb := ct == 4 || ct == 5
+	isGRPC := ct == 6 || ct == 7
+	trailersOnly := !hasErr && !hasTrailer && !hasData
+
+	vAssert((vRec.connErr == 1) == isJSONErr && vRec.connErr <= 1, "the Connect error examiner runs exactly for a unary JSON error")
+	if isJSONErr {
+		vAssert(vRec.connErrBody == errBody, "the Connect error examiner sees the captured response body")
+	}
+	vAssert((vRec.connEnd == 1) == (isConnectStream && hasEnd) && vRec.connEnd <= 1, "the Connect end-stream examiner runs exactly for a Connect stream that has an end-stream message")
+	if isConnectStream && hasEnd {
+		vAssert(vRec.connEndBody == endContent, "the Connect end-stream examiner sees the end-stream content")
+	}
+	vAssert((vRec.grpcEnd == 1) == (isGRPCWeb && hasEnd) && vRec.grpcEnd <= 1, "the gRPC-Web trailer examiner runs exactly for a gRPC-Web response that has an end-stream message")
+	wantStatus := ""
+	switch {
+	case isGRPCWeb && hasEnd:
+		wantStatus = "end-stream"
+	case isGRPCWeb && trailersOnly:
+		wantStatus = "headers"
+	case isGRPC && trailersOnly:
+		wantStatus = "headers"
+	case isGRPC && hasTrailer:
+		wantStatus = "trailers"
+	}
+	vAssert((vRec.status == 1) == (wantStatus != "") && vRec.status <= 1, "the gRPC status check runs once where gRPC status metadata exists")
+	if wantStatus != "" && vRec.status == 1 {
+		vAssert(vRec.statusOn == wantStatus, "the gRPC status check reads the in-body trailers, the trailers-only headers, or the HTTP trailers, as the response shape dictates")
+	}
+	vAssert((p.n == 1) == (!isGRPC && hasTrailer) && p.n <= 1, "HTTP trailers are flagged exactly when the protocol is not gRPC")
 }
